@@ -123,16 +123,15 @@ def judge(ctx, key, case, m, status, desc, rows, leg):
         ctx.skipped += 1
         return
     pivot = bool(case['q']['pivot'])
-    if not pivot:
-        names = [c.name for c in desc]
-        if names != list(m['names']):
-            ctx.violation(key + ':names', 'description names', case, leg, m['names'], names)
-            return
-        types = [c.datatype for c in desc]
-        want = [selectq.TYPEMAP[t] for t in m['types']]
-        if types != want:
-            ctx.violation(key + ':types', 'description datatypes', case, leg, m['types'], [t.__name__ for t in types])
-            return
+    names = [c.name for c in desc]
+    if (not pivot or m['names']) and names != list(m['names']):      # pivoted headers with decimal / date keys: names not modelled
+        ctx.violation(key + ':names', 'description names', case, leg, m['names'], names)
+        return
+    types = [c.datatype for c in desc]
+    want = [selectq.TYPEMAP[t] for t in m['types']]
+    if types != want:
+        ctx.violation(key + ':types', 'description datatypes', case, leg, m['types'], [t.__name__ for t in types])
+        return
     for r in rows:
         if len(r) != len(desc):
             ctx.violation(key + ':arity', 'row arity differs from the description', case, leg, len(desc), len(r))
@@ -281,6 +280,14 @@ class RandomQueries:
                 q['targets'] = [{'e': e, 'as': 'g%d' % i} for i, e in enumerate(keys)] + [{'e': self.agg(), 'as': 'a0'}]
                 q['group'] = [{'k': 'idx', 'i': i + 1} for i in range(len(keys))]
                 q['order'] = self.order(q['targets'], ['g%d' % i for i in range(len(keys))] + ['a0'], True, keys=keys)
+                if r.random() < 0.35:          # a key that is not selected: groups may coincide in their visible values
+                    hid = r.choice([self.col('s'), self.col('k'), {'k': 'un', 'op': 'isnull', 'a': self.col('v')}])
+                    q['group'] = q['group'] + [{'k': 'expr', 'e': hid}]
+                    q['distinct'] = r.random() < 0.8
+                    if r.random() < 0.5:
+                        q['targets'] = [{'e': {'k': 'agg', 'f': 'count', 'a': {'k': 'star'}}, 'as': 'a0'}]
+                        q['group'] = [{'k': 'expr', 'e': e} for e in keys] + [{'k': 'expr', 'e': hid}]
+                        q['order'] = [] if r.random() < 0.5 else [{'r': {'k': 'idx', 'i': 1}, 'desc': r.random() < 0.5}]
             return q
         if family == 'group':
             keys = r.sample([self.col('k'), self.col('s'), {'k': 'un', 'op': 'isnull', 'a': self.col('v')},
@@ -318,7 +325,13 @@ class RandomQueries:
             q['pivot'] = [({'k': 'idx', 'i': pos[n]} if r.random() < 0.5 else {'k': 'expr', 'e': self.col(n)}) for n in (first, second)]
             q['where'] = {'k': 'and', 'args': [{'k': 'un', 'op': 'isnotnull', 'a': self.col('k')}, {'k': 'un', 'op': 'isnotnull', 'a': self.col('s')}]} \
                 if r.random() < 0.8 else q['where']
-            if r.random() < 0.4:
+            if r.random() < 0.25:
+                q['having'] = r.choice([{'k': 'bin', 'op': 'gt', 'a': {'k': 'agg', 'f': 'count', 'a': {'k': 'star'}}, 'b': self.const_int(r.choice([0, 1]))},
+                                        {'k': 'un', 'op': 'isnotnull', 'a': {'k': 'agg', 'f': 'max', 'a': self.col('w')}}])
+            if r.random() < 0.15:
+                q['order'] = [{'r': {'k': 'expr', 'e': r.choice([{'k': 'agg', 'f': 'count', 'a': self.col('v')}, {'k': 'agg', 'f': 'max', 'a': self.col('w')}])},
+                               'desc': r.random() < 0.5}]
+            elif r.random() < 0.4:
                 q['order'] = [{'r': r.choice([{'k': 'idx', 'i': pos[first]}, {'k': 'expr', 'e': self.col(first)}, {'k': 'idx', 'i': pos[second]},
                                               {'k': 'idx', 'i': pos['a0']}]), 'desc': r.random() < 0.6} for _ in range(r.randint(1, 2))]
             return q
@@ -342,7 +355,8 @@ class RandomQueries:
         right = left if r.random() < 0.7 else r.choice(['k', 'v', 's', 'w'])
         inner = {'targets': [{'e': col(right) if r.random() < 0.8 else {'k': 'bin', 'op': 'add', 'a': col('k'), 'b': self.const_int(1)}, 'as': 'c'}],
                  'where': r.choice([{'k': 'none'}, {'k': 'bin', 'op': 'gt', 'a': col('v'), 'b': self.const_int(r.choice([0, 2, 100]))},
-                                    {'k': 'un', 'op': 'isnotnull', 'a': col(right)}, {'k': 'un', 'op': 'isnull', 'a': col('k')}]),
+                                    {'k': 'un', 'op': 'isnotnull', 'a': col(right)}, {'k': 'un', 'op': 'isnull', 'a': col('k')},
+                                    {'k': 'un', 'op': 'isnull', 'a': col(right)}]),      # the last one: rows, all of them NULL
                  'group': [], 'having': {'k': 'none'}, 'order': [], 'pivot': [], 'distinct': r.random() < 0.2, 'limit': r.choice([-1, -1, -1, 0, 2]),
                  'sub': {'k': 'none'}, 'star': False}
         if r.random() < 0.06:
@@ -378,6 +392,9 @@ class RandomQueries:
             g = r.choice(names)
             q['targets'] = [{'e': col(g), 'as': 'gg'}, {'e': {'k': 'agg', 'f': 'count', 'a': {'k': 'star'}}, 'as': 'nn'}]
             q['group'] = [{'k': 'idx', 'i': 1}] if r.random() < 0.5 else []
+            if len(names) > 1 and r.random() < 0.5:          # a grouping key that is not selected, next to a selected one
+                h = r.choice([n for n in names if n != g])
+                q['group'] = [{'k': 'idx', 'i': 1}, {'k': 'expr', 'e': col(h)}] if r.random() < 0.7 else [{'k': 'expr', 'e': col(h)}, {'k': 'expr', 'e': col(g)}]
             q['_names'] = ['gg', 'nn']
         if r.random() < (0.8 if inner['order'] and inner['limit'] < 0 else 0.5) and not q['group'] \
                 and not any(t['e'].get('k') == 'agg' for t in q['targets']):
